@@ -146,6 +146,71 @@ def serOutcome : Outcome (List Genbank.Sequence) → List String
   | .err => ["err"]
   | .panic => ["panic"]
 
+/-! the reply read back into records (inverse of `serOutcome` on `ok` replies), for the known-finding class -/
+
+def pPairs : P (List (Str × Str)) := do
+  let n ← tokNat
+  rep (do let k ← tokStr; let v ← tokStr; return (k, v)) n
+
+def pSeq : P Genbank.Sequence := do
+  let seq ← tokStr; let name ← tokStr; let seqLength ← tokStr; let coding ← tokStr; let molType ← tokStr
+  let circular ← tok; let linear ← tok; let division ← tokStr; let date ← tokStr
+  let definition ← tokStr; let accession ← tokStr; let version ← tokStr; let keywords ← tokStr
+  let source ← tokStr; let organism ← tokStr
+  let nrefs ← tokNat
+  let refs ← rep (do
+    let index ← tokStr; let range ← tokStr; let authors ← tokStr; let title ← tokStr; let journal ← tokStr
+    let pubmed ← tokStr; let remark ← tokStr
+    return ({ index, range, authors, title, journal, pubmed, remark } : Genbank.Reference)) nrefs
+  let other ← pPairs
+  let nfeat ← tokNat
+  let feats ← rep (do
+    let type ← tokStr; let gbkLoc ← tokStr; let attrs ← pPairs
+    return ({ type, gbkLoc, attrs } : Genbank.Feature)) nfeat
+  return { md := { locus := { name, seqLength, coding, molType, circular := circular == "true", linear := linear == "true",
+                              division, date }
+                   definition, accession, version, keywords, source, organism, references := refs, other }
+           seq, features := feats }
+
+def unser (out : List String) : Option (List Genbank.Sequence) :=
+  match out with
+  | "ok" :: k :: rest =>
+    match (rep pSeq (natOfStr k)).run rest with
+    | some (qs, []) => if serOutcome (.ok qs) == out then some qs else none
+    | _ => none
+  | _ => none
+
+/-- the keys a feature states more than once -/
+def repeatedKeys (f : RFeature) : List Str :=
+  (f.quals.map (·.1)).filter fun k => (f.quals.filter (·.1 == k)).length > 1
+
+/-- a reply with the qualifiers of the repeated keys taken out, feature by feature (`none`: another number of features) -/
+def maskRepeated (r : GbRec) (q : Genbank.Sequence) : Option Genbank.Sequence :=
+  if q.features.length != r.features.length then none else
+  some { q with features := (List.zip r.features q.features).map fun p =>
+    { p.2 with attrs := p.2.attrs.filter fun kv => !(repeatedKeys p.1).contains kv.1 } }
+
+/-- `vs` occur in `t` in this order, disjoint -/
+def occurInOrder : List Str → Str → Bool
+  | [], _ => true
+  | v :: vs, t =>
+    match index t v with
+    | some i => occurInOrder vs (t.drop (i + v.length))
+    | none => false
+
+/-- nothing stated under a repeated key is lost: the reply keeps one value for the key that holds every stated value, in
+file order, apart from each other (a joined form), or the reply repeats the key with exactly the stated values -/
+def repeatedKept (r : GbRec) (q : Genbank.Sequence) : Bool :=
+  q.features.length == r.features.length &&
+  (List.zip r.features q.features).all fun p =>
+    (repeatedKeys p.1).all fun k =>
+      let stated := (p.1.quals.filter (·.1 == k)).map (·.2)
+      let got := (p.2.attrs.filter (·.1 == k)).map (·.2)
+      got == stated ||
+        (match got with
+         | [t] => occurInOrder stated t && t.length ≥ (stated.map List.length).sum + (stated.length - 1)
+         | _ => false)
+
 /-- `parseLocation` (property C02's model) panics on this location text -/
 def locPanics (loc : Str) : Bool := match Location.parseLocation loc with | .panic => true | _ => false
 
@@ -215,17 +280,36 @@ def judge (f out : List String) : Verdict :=
       && pairs.all (fun p => noSlashEnd p.1 p.2)
     let nfeat := (c.recs.map (·.features.length)).sum
     let multiloc := pairs.any (fun p => (zipF p.1.features p.2.feats).any (fun q => (cutLoc q.2.loc q.1.loc).length > 1))
-    -- the known finding is tagged only when the reply is exactly what it predicts: every record as the record states it,
-    -- except that of a repeated qualifier key the last value is kept (`toSequenceM`); anything else is a plain FAIL
-    let lastWins := serOutcome (.ok (c.recs.map toSequenceM))
-    let kf := if c.recs.any repeatedQualKey && outN == lastWins then " kf:C01-repeated-qualifier-key" else ""
+    -- the known-finding class C01-repeated-qualifier-key: some feature states a qualifier key more than once.
+    --  * `confined`: apart from the qualifiers of the repeated keys (whatever values the reply gives them, or none), the reply
+    --    is what the records state; a failure that is confined is the known finding (any loss on the repeated key), a
+    --    difference anywhere else is a plain FAIL
+    --  * `kept`: nothing stated under a repeated key is lost (the key repeated with the stated values, or one joined value
+    --    holding all of them in order): then the property holds there — a repaired implementation passes, and its
+    --    difference from the model, which mirrors the defect (last value wins), is drift, not a correspondence failure
+    --  * on a confined reply (passing or tagged) the comparison with the model is not a correspondence failure: the model
+    --    mirrors ONE way of losing values (the last wins); another loss on the same key is the same known finding
+    let inClass := c.recs.any repeatedQualKey
+    let replyRecs := unser outN
+    let confined := match replyRecs with
+      | some qs => qs.length == c.recs.length && (List.zip c.recs qs).all fun p =>
+          match maskRepeated p.1 p.2, maskRepeated p.1 (toSequence p.1) with
+          | some a, some b => ser a == ser b
+          | _, _ => false
+      | none => false
+    let kept := match replyRecs with
+      | some qs => qs.length == c.recs.length && (List.zip c.recs qs).all fun p => repeatedKept p.1 p.2
+      | none => false
+    let pass := outN == expected || (inClass && confined && kept)
+    let repaired := inClass && pass
+    let kf := if inClass && !pass && confined then " kf:C01-repeated-qualifier-key" else ""
     let triv := if nfeat == 0 && c.recs.all (fun r => r.refs.isEmpty) then "triv:" else ""
     let cls := triv ++ c.mode ++ "/r" ++ toString c.recs.length
       ++ (if c.lay.finalNewline then "/nl" else "/nonl")
       ++ (if nfeat == 0 then "/f0" else if nfeat ≤ 5 then "/f1-5" else "/f6+")
       ++ (if multiloc then "/multiloc" else "") ++ (if pairs.any (fun p => orgOmitted p.1 p.2) then "/noorg" else "")
-      ++ (if c.recs.all quoteFreeValues then "" else "/quote-in-value") ++ kf
-    { corr := outN == m, judge := if inDom then some (outN == expected) else none, cls := cls
+      ++ (if c.recs.all quoteFreeValues then "" else "/quote-in-value") ++ (if repaired then "/kf-repaired" else "") ++ kf
+    { corr := outN == m || (inDom && inClass && confined), judge := if inDom then some pass else none, cls := cls
       detail := if outN == m && outN == expected then "" else
         "model: " ++ lineOf (m.map fun x => if x.length > 300 then (x.take 300).toString ++ "…" else x) ++ "  expected: "
           ++ lineOf (expected.map fun x => if x.length > 300 then (x.take 300).toString ++ "…" else x) }
